@@ -440,6 +440,87 @@ def eval_client(case: dict) -> dict:
     return out
 
 
+def eval_client_peer(case: dict) -> dict:
+    """Full client; a remote peer connects in (P or D connection) and sends every message class of that family
+    through the real handlers of all managers. The reader must not stop while the connection stays CONNECTED."""
+    from aioslsk.client import SoulSeekClient
+    from aioslsk.settings import Settings
+    from aioslsk.events import MessageReceivedEvent
+    from aioslsk.network.connection import ConnectionState
+    m, p, _ = _mods()
+    table = case['table']
+    out = {'received': 0, 'sent': 0, 'dead_after': None, 'exc': None, 'reconnects': 0}
+
+    async def main(loop):
+        net = fakenet.FakeNet().install()
+        try:
+            srv = simserver.SimServer()
+            net.endpoints[2416] = fakenet.Endpoint('accept', srv.handler)
+            s = Settings(credentials={'username': 'me', 'password': 'pw'},
+                         network={'server': {'hostname': 'srv', 'port': 2416},
+                                  'listening': {'port': 60000, 'obfuscated_port': 60001},
+                                  'upnp': {'enabled': False}})
+            c = SoulSeekClient(s)
+            keep = []
+            seen = []
+
+            async def on_msg(ev):
+                seen.append(id(ev.connection))
+            keep.append(on_msg)
+            c.events.register(MessageReceivedEvent, on_msg)
+            await c.start()
+            await c.login()
+            await asyncio.sleep(1)
+            typ = case['typ']
+            conn = w = None
+
+            async def connect():
+                nonlocal conn, w
+                before = list(c.network.peer_connections)
+                _r, w = await net.connect_in(60000, ('10.0.0.9', 40000 + out['reconnects']))
+                w.write(m.PeerInit.Request('hostile', typ, 7).serialize())
+                await asyncio.sleep(0.01)
+                new = [x for x in c.network.peer_connections if x not in before]
+                conn = new[0] if new else None
+                out['reconnects'] += 1
+
+            await connect()
+            for k, (idx, vals) in enumerate(case['msgs']):
+                if conn is None or conn.state != ConnectionState.CONNECTED or w._closed:
+                    await connect()
+                    if conn is None:
+                        out['dead_after'] = {'index': k, 'class': 'PeerInit', 'reader_done': None,
+                                             'state': 'not-accepted', 'delivered': False}
+                        break
+                try:
+                    data = wc.build(m, p, table[idx], vals).serialize()
+                except Exception:
+                    continue
+                n0 = len([x for x in seen if x == id(conn)])
+                w.write(data)
+                out['sent'] += 1
+                await asyncio.sleep(0.01)
+                await asyncio.sleep(0.01)
+                task = conn._reader_task
+                dead = task is None or task.done()
+                delivered = len([x for x in seen if x == id(conn)]) > n0
+                if (dead and conn.state == ConnectionState.CONNECTED) or \
+                        (not delivered and conn.state == ConnectionState.CONNECTED):
+                    out['dead_after'] = {'index': k, 'class': f'{table[idx]["name"]}.{table[idx]["dir"]}',
+                                         'reader_done': dead, 'state': conn.state.name, 'delivered': delivered}
+                    break
+            out['loop_exc'] = [e for e in loop.exceptions]
+            await c.stop()
+        finally:
+            net.uninstall()
+
+    try:
+        simloop.run(main, wall_timeout=30, tick=1e-4)
+    except Exception as e:  # noqa: BLE001
+        out['exc'] = f'{type(e).__name__}: {e}'
+    return out
+
+
 class C02(Property):
     id = 'C02'
     props_module = 'AioslskVerif.Props.C02'
@@ -635,6 +716,36 @@ class C02(Property):
                 res.violations.append(Violation(
                     'C02-reader-died', f'server reader stopped after {da["class"]} (message #{da["index"]}) while the '
                     f'connection is {da["state"]}', case, observed=da))
+        # ---- (e) full client, peer / distributed connections through the real handlers
+        ne = (16 if tier == 'quick' else 300) * widen
+        ecases = []
+        for j in range(ne):
+            typ = 'P' if j % 2 == 0 else 'D'
+            fam = 'peer' if typ == 'P' else 'distributed'
+            cands = [i for i, s in enumerate(table) if s['family'] == fam and s['dir'] == 'request']
+            msgs = []
+            order = list(cands)
+            rng.shuffle(order)
+            for idx in (order * 3)[:rng.randrange(15, 40)]:
+                msgs.append((idx, wc.gen_message(rng, table[idx])))
+            ecases.append({'table': table, 'typ': typ, 'msgs': msgs})
+        eout = common.parallel_map(eval_client_peer, ecases, chunksize=1)
+        for c, o in zip(ecases, eout):
+            res.evaluations += 1
+            res.count('e:peer-client-sequences:' + c['typ'])
+            res.count('e:messages', o.get('sent', 0))
+            res.count('e:reconnects', o.get('reconnects', 0))
+            case = {'case_kind': 'client-peer', 'typ': c['typ'], 'msgs': [[i, wc.show_message(v)] for i, v in c['msgs']]}
+            if o.get('sent', 0) >= 3:
+                res.nontrivial_keys.add(common.sha(case))
+            if o.get('exc'):
+                res.violations.append(Violation('C02-harness-or-impl-error', o['exc'], case, observed=o['exc']))
+            elif o['dead_after'] is not None:
+                da = o['dead_after']
+                case['msgs'] = case['msgs'][:da['index'] + 1]
+                res.violations.append(Violation(
+                    'C02-reader-died', f'{c["typ"]} connection: reader stopped / message not delivered after {da["class"]} '
+                    f'(message #{da["index"]}) while the connection is {da["state"]}', case, observed=da))
         return res
 
     def replay(self, case):
@@ -658,6 +769,11 @@ class C02(Property):
                 vs.append(Violation('C02-bad-first-frame-not-closed', 'bad first frame, connection not closed', case, observed=o))
             if not o.get('bystander_ok') or o.get('bystander_delivered') != 1:
                 vs.append(Violation('C02-bystander', 'another connection was affected', case, observed=o))
+        elif kind == 'client-peer':
+            msgs = [(i, _parse(table[i], txt)) for i, txt in case['msgs']]
+            o = eval_client_peer({'table': table, 'typ': case['typ'], 'msgs': msgs})
+            if o.get('dead_after') is not None:
+                vs.append(Violation('C02-reader-died', f'peer reader stopped: {o["dead_after"]}', case, observed=o['dead_after']))
         elif kind == 'client':
             msgs = [(i, _parse(table[i], txt)) for i, txt in case['msgs']]
             o = eval_client({'table': table, 'msgs': msgs})
